@@ -82,6 +82,15 @@ def tname(x):
     return None
 
 
+def cls_name(v):
+    """String term naming the class denoted by a class-object value (registry entry or class-valued hint)."""
+    if isinstance(v, PTok) and v.what == "cls":
+        return v.a
+    if isinstance(v, PH):
+        return sp.norm(hname(v.t))
+    return None
+
+
 def hname(h):
     """`annotation.__name__` for annotations that are classes."""
     return sp.ite((H.is_HCls(h), H.cname(h)), (H.is_HAny(h), sv("Any")), (H.is_HBytes(h), sv("bytes")), (H.is_HBytearray(h), sv("bytearray")),
@@ -373,6 +382,10 @@ class SerExecutor(Executor):
 
     # -------------------------------------------------------------- compare --
     def compare(self, st, op, a, b, node):
+        if op in ("Is", "IsNot"):
+            r = self._type_identity(a, b)
+            if r is not None:
+                return [(st, VBool(r if op == "Is" else z3.Not(r)))]
         if op in ("Is", "IsNot", "Eq", "NotEq") and (isinstance(a, (PH, PTok)) or isinstance(b, (PH, PTok))):
             r = self._identity(st, a, b, node)
             if r is not None:
@@ -426,6 +439,12 @@ class SerExecutor(Executor):
             return a.a == b.a
         return None
 
+    def _type_identity(self, a, b):
+        na, nb = tname(a), tname(b)
+        if na is not None and nb is not None:
+            return z3.BoolVal(na.split(".")[-1] == nb.split(".")[-1])
+        return None
+
     def contains(self, st, container, item, node):
         if isinstance(container, PV):
             tt = container.t
@@ -451,6 +470,8 @@ class SerExecutor(Executor):
     # ------------------------------------------------------------ attribute --
     def get_attr(self, st, base, attr, node):
         if isinstance(base, PTok) and base.what == "cls" and attr == "__name__":
+            return [(st, VStr(base.a))]
+        if isinstance(base, PTok) and base.what == "field" and attr == "name" and base.b is None:
             return [(st, VStr(base.a))]
         if isinstance(base, PH) and attr == "__name__":
             s2 = self.fork_raise(st, sp.norm(z3.Not(istype(base.t))), "AttributeError")
@@ -792,10 +813,9 @@ class SerExecutor(Executor):
         self.add_vc("inv-init", label, st.pc, self._b(spec.inv(LoopCtx(self, st, None, entry, extra={"done": KV.knil, "all": fs}))), loc=self.loc(s))
         outs = []
         body = st.fork()
+        before = dict(body.heap)
         self.havoc_loop_state(body, s.body, spec)
-        for name in sorted(self.assigned_names(s.body)):     # dict-valued accumulators become arbitrary mappings
-            cur = body.lookup(name)
-        self._havoc_pv_refs(body, s.body)
+        self._havoc_pv_refs(body, s.body, before)
         after = body.fork()
         done = z3.Const(fresh_name("done"), KV)
         fk, fv = z3.String(fresh_name("fname")), z3.Const(fresh_name("fval"), V)
@@ -823,10 +843,12 @@ class SerExecutor(Executor):
             outs.append(Outcome("fall", after))
         return outs
 
-    def _havoc_pv_refs(self, st, stmts):
+    def _havoc_pv_refs(self, st, stmts, before=None):
         for ref in sorted(self.mutated_refs(stmts, st)):
             o = st.heap.get(ref)
-            if o is not None and o.kind in ("dict", "pvkv", "unk"):
+            if before is not None and ref in before:
+                o = before[ref]
+            if o is not None and o.kind in ("dict", "pvkv"):
                 st.heap[ref] = HeapObj("pvkv", z3.Const(fresh_name("acc"), KV), None, o.fresh)
             elif o is not None and o.kind == "pvmap":
                 st.heap[ref] = HeapObj("pvmap", (z3.Const(fresh_name("has"), z3.ArraySort(sp.S, sp.B)), z3.Const(fresh_name("val"), z3.ArraySort(sp.S, V))), None, o.fresh)
@@ -849,8 +871,9 @@ class SerExecutor(Executor):
         self.add_vc("inv-init", label, st.pc, self._b(spec.inv(LoopCtx(self, st, None, entry, extra={"seen": empty, "cls": cls}))), loc=self.loc(s))
         outs = []
         body = st.fork()
+        before = dict(body.heap)
         self.havoc_loop_state(body, s.body, spec)
-        self._havoc_pv_refs(body, s.body)
+        self._havoc_pv_refs(body, s.body, before)
         after = body.fork()
         seen = z3.Const(fresh_name("seen"), z3.ArraySort(sp.S, sp.B))
         nm = z3.String(fresh_name("fname"))
@@ -889,7 +912,8 @@ class SerExecutor(Executor):
     def construct_from_kwargs(self, st, f, kw, node):
         """cls(**kwargs) for a dataclass: every declared field from kwargs or its default (ASSUMED: @dataclass
         __init__; raises TypeError for a missing field without default or an unexpected keyword)."""
-        if not (isinstance(f, PTok) and f.what == "cls") or not isinstance(kw, VRef):
+        cn = cls_name(f)
+        if cn is None or not isinstance(kw, VRef):
             self.unsupported(node, "**kwargs call")
         o = st.obj(kw.ref)
         if o.kind == "dict" and not o.data:
@@ -897,7 +921,11 @@ class SerExecutor(Executor):
         elif o.kind == "pvmap":
             has, val = o.data
         else:
-            self.unsupported(node, "**kwargs of a dictionary that is not a keyword map")
+            self.unsupported(node, f"**kwargs of a dictionary that is not a keyword map ({o.kind}, {type(o.data).__name__})")
         self.raise_in(st.fork(), self.mk_exc("TypeError"))
         self.exc_any(st.fork(), f"{self.loc(node)} dataclass __init__/__post_init__")
-        return [(st, PV(V.DC(f.a, sp.BUILDM(sp.FIELDS(f.a), has, val, f.a))))]
+        cf = getattr(self.contract, "construct_facts", None)
+        if cf is not None and self.inline_depth == 0:
+            for fct in cf(self, st, cn, has, val):
+                st.assume(fct)
+        return [(st, PV(V.DC(cn, sp.BUILDM(sp.FIELDS(cn), has, val, cn))))]
